@@ -66,6 +66,17 @@ CHECKS['C12'] = dict(
          'escapes in one class. Out: back-references, i/m/x flags, \\i \\c on astral code points, match positions.',
     technique='translation validation: z3 regex-language equivalence (minterm alphabet) of translate_pattern output vs reference grammar',
     design='DESIGN.md §4 C12')
+CHECKS['C10'] = dict(
+    text='Lexical spaces: the pattern regex of each datatype class (numeric, boolean, hexBinary, language, duration: both inclusions; '
+         'date/time family: every valid form accepted) is compared with the XSD lexical-space regex as regular languages in z3 for '
+         'strings of any length. Integer bounds: Integer.__init__ is translated from source to z3 and proved to accept exactly the '
+         'XSD value range of each of the 13 integer types, for every integer. Constructor / cast / castable agreement and binary '
+         'casts on symbolic strings run under CrossHair as bug-hunting only.',
+    note='Trusted: z3 regex theory, CPython sre parser, the XSD lexical regexes transcribed in harness/c10.py, AST->z3 translator. Known '
+         'finding C10-datetime-is-valid. Out: name types, QName/NOTATION, list types, canonical forms of doubles, casting table '
+         'beyond the sampled paths.',
+    technique='z3 regex-language inclusion of datatype patterns vs XSD lexical spaces + AST->z3 translation of Integer bounds + CrossHair bug-hunting',
+    design='DESIGN.md §4 C10')
 NOT_APPLICABLE = {
     'C04': 'Quantifies over program syntax and hash seeds: no value domain to make symbolic; symbolic source text does not get through '
            'the tokenizer regex under CrossHair (600 CPU-s, len<=2, no verdict); a table-level z3 check would verify a model of the '
